@@ -254,7 +254,7 @@ pub fn core_verify_points<R: RefSuite>(pk: &R::Pk, sig: &R::Sig, msg: &[u8], dst
     }
     let q = R::hash_to_sig(msg, dst);
     // e(Q, PK) == e(sig, P)   <=>   e(Q, PK) * e(sig, -P) == 1
-    R::pairing_product(&[(q, *pk), (*sig, -R::Pk::generator())]) == Gt::identity()
+    R::pairing_product(&[(q, *pk), (*sig, -R::Pk::generator())]) == Gt::IDENTITY
 }
 
 pub fn core_verify<R: RefSuite>(pk: &[u8], sig: &[u8], msg: &[u8], dst: &[u8]) -> bool {
@@ -268,7 +268,7 @@ pub fn core_verify<R: RefSuite>(pk: &[u8], sig: &[u8], msg: &[u8], dst: &[u8]) -
 /// guard and not the algebra rejected.
 pub fn bare_equation<R: RefSuite>(pk: &R::Pk, sig: &R::Sig, msg: &[u8], dst: &[u8]) -> bool {
     let q = R::hash_to_sig(msg, dst);
-    R::pairing_product(&[(q, *pk), (*sig, -R::Pk::generator())]) == Gt::identity()
+    R::pairing_product(&[(q, *pk), (*sig, -R::Pk::generator())]) == Gt::IDENTITY
 }
 
 pub fn aug_msg<R: RefSuite>(pk: &R::Pk, msg: &[u8]) -> Vec<u8> {
@@ -353,7 +353,7 @@ pub fn aggregate_verify<R: RefSuite>(scheme: Scheme, pairs: &[(Vec<u8>, Vec<u8>)
         terms.push((R::hash_to_sig(&m, dst), pk));
     }
     terms.push((sig, -R::Pk::generator()));
-    R::pairing_product(&terms) == Gt::identity()
+    R::pairing_product(&terms) == Gt::IDENTITY
 }
 
 // ---- Shamir / Lagrange -----------------------------------------------------------------------
@@ -482,7 +482,7 @@ pub fn signcrypt_valid<R: RefSuite>(u: &R::Pk, v: &[u8], w: &R::Sig, scheme: Sch
     t.extend_from_slice(v);
     let h = R::hash_to_sig(&t, sig_dst::<R>(scheme));
     // e(W, P) == e(H(U||V), U)
-    R::pairing_product(&[(*w, -R::Pk::generator()), (h, *u)]) == Gt::identity()
+    R::pairing_product(&[(*w, -R::Pk::generator()), (h, *u)]) == Gt::IDENTITY
 }
 
 /// open with u^sk given (whole key: u*sk; threshold: interpolated)
@@ -506,7 +506,7 @@ pub fn signcrypt_share_valid<R: RefSuite>(share: &R::Pk, pk_share: &R::Pk, u: &R
     let mut t = enc(u);
     t.extend_from_slice(v);
     let h = R::hash_to_sig(&t, sig_dst::<R>(scheme));
-    R::pairing_product(&[(-h, *share), (*w, *pk_share)]) == Gt::identity()
+    R::pairing_product(&[(-h, *share), (*w, *pk_share)]) == Gt::IDENTITY
 }
 
 // ---- time lock -------------------------------------------------------------------------------
@@ -578,7 +578,7 @@ pub fn pok_verify<R: RefSuite>(u: &R::Sig, v: &R::Sig, pk: &R::Pk, y: &Scalar, m
         return false;
     }
     let a = R::hash_to_sig(msg, sig_dst::<R>(scheme));
-    R::pairing_product(&[(*v, R::Pk::generator()), (*u + a * y, *pk)]) == Gt::identity()
+    R::pairing_product(&[(*v, R::Pk::generator()), (*u + a * y, *pk)]) == Gt::IDENTITY
 }
 
 /// prover side with explicit randomness x: u = H(m)^x, v = -(sig^(x+y))
